@@ -206,7 +206,7 @@ C07_NotBefore ==
   Quiet => \A j \in J : st.jobs[j].started => st.jobs[j].startAt - st.jobs[j].accAt >= V(j).delay
 
 C07_NeverStartedNeverRuns ==
-  \A j \in J : (Quiet /\ st.jobs[j].canceled /\ ~st.jobs[j].started) => \A t \in TaskIds(j) : Run(j, t).begun = 0
+  \A j \in J : (Quiet /\ st.jobs[j].listed /\ ~st.jobs[j].rst /\ st.jobs[j].canceled /\ ~st.jobs[j].started) => \A t \in TaskIds(j) : Run(j, t).begun = 0
 
 C07_NewestWins ==
   (Quiet /\ st.phase \in {"run", "drained"}) => \A j \in J : \A k \in J :
@@ -303,7 +303,7 @@ C11_RejectAfter ==
 C11_GracefulRunsOut ==
   (ShutRet /\ ~st.forced) => \A j \in J : st.jobs[j].listed =>
      /\ (st.jobs[j].started /\ NoTrouble(j)) => (Plain(st, j) /\ \A t \in TaskIds(j) : Run(j, t).begun = 1)
-     /\ st.stop[j].n >= 1 => (st.ack[j].n > 0 \/ \E t \in TaskIds(j) : FailedHard(j, t))
+     /\ (st.stop[j].n >= 1 /\ st.stop[j].duringShut) => (st.ack[j].n > 0 \/ \E t \in TaskIds(j) : FailedHard(j, t))
      /\ ~st.jobs[j].started => st.jobs[j].canceled
 
 C11_ForcedCancels ==
